@@ -33,6 +33,11 @@ def run(tier):
                     if c["cfg"]["target"] == "point" and c["cfg"]["ndim"] >= 2 and im == (tg + 1) % 3:
                         cases.append({"cfg": c["cfg"], "sys": c["sys"], "run": {"mode": "system", "neigh": nk, "model": im, "target": tg,
                                                                               "perm": 0, "tgrid": True}})
+        # a target lying exactly on a datum (the discontinuous structures contribute to the right-hand side there)
+        if c["cfg"]["target"] == "point":
+            for nk in ("unique", "moving"):
+                im = 1   # the model with a nugget effect
+                cases.append({"cfg": c["cfg"], "sys": c["sys"], "run": {"mode": "system", "neigh": nk, "model": im, "target": 1, "perm": 0, "tcoin": True}})
         # consecutive targets with different neighbourhoods in one run (first one possibly heterotopic)
         if c["cfg"]["target"] == "point":
             for im in (0, 1):
